@@ -74,14 +74,14 @@ EPS_ABS = 0.05          #             (measured max 0.0157)
 INT_REL = 0.15          # of f(sma)   (measured max 0.049)
 
 
-def pa_abs_deg(eps):    # degrees     (measured max 0.17 of this band)
+def pa_abs_deg(eps):    # degrees     (measured max 2.46 deg = 0.31 of this band)
     return 1.0 + 0.4 / eps
 
 
-MODEL_K_SMALL = 2.5     # pointwise model band = K * (0.06 + 0.8 |grad ln I|)   (measured max 0.72 / 0.67 of the
-MODEL_K_BIG = 3.5       # unit band for small / big steps)
-MODEL_SHIFT = 0.15      # px, least-squares registration offset of model vs image (measured max 0.05)
-MODEL_BIAS = 0.08       # mean relative residual (measured max 0.028)
+MODEL_K_SMALL = 2.5     # pointwise model band = K * (0.06 + 0.8 |grad ln I|)   (measured max 0.93 / 0.70 of the
+MODEL_K_BIG = 3.5       # unit band for small / big steps over ~8000 models; typical 0.03-0.25)
+MODEL_SHIFT = 0.15      # px, least-squares registration offset of model vs image (measured max 0.057)
+MODEL_BIAS = 0.08       # mean relative residual (measured max 0.032)
 POLAR_TOL = 1e-12       # scalar vs array form
 USABLE_MIN = 0.70
 
